@@ -233,6 +233,10 @@ def run(ck, tier):
     rets = [r for r in ast.walk(rex.node) if isinstance(r, ast.Return) and isinstance(r.value, ast.Call) and callee_name(r.value) == 'ReadDeviceInformationResponse']
     ck.ob('R4', rex.qn, 'response carries the request read code and the factory result', len(rets) == 1 and U(rets[0].value.args[0]) == 'self.read_code',
           detail='response-args', loc=cx.floc(rex))
+    from .c01 import shared_layout_findings
+    n3 = ck.guard(shared_layout_findings, ck, cx, 'R3', ('ReadDeviceInformationResponse', 'ReadDeviceInformationRequest'),
+                  'a client following the more-follows chain reads the continuation fields from the wrong bytes', ('R2', 'R3'))
+    ck.floor('R3', n3 or 0, 2, 'MEI header layout obligations')
     ck.assume('completeness / exactly-once over all identities and whole continuation chains is not decided; these are the structural conditions it rests on')
     return cx.idx
 
